@@ -579,3 +579,25 @@ func mapUpdateOneOf(fields ...*types.Var) (sel Sel, covered func(ssa.Instruction
 	}
 	return
 }
+
+// isLogCall: a call of a method of the btclog.Logger interface (writing a log
+// line is not an effect any rule is about).
+func isLogCall(in ssa.Instruction) bool {
+	cc := ir.CallOf(in)
+	if cc == nil || !cc.IsInvoke() {
+		return false
+	}
+	n, ok := cc.Value.Type().(*types.Named)
+	return ok && n.Obj().Name() == "Logger" && n.Obj().Pkg() != nil && n.Obj().Pkg().Name() == "btclog"
+}
+
+// mapLookupOf: v is the value of a map lookup m[k], in the plain or the
+// comma-ok form (`x, ok := m[k]`).
+func mapLookupOf(v ssa.Value) *ssa.Lookup {
+	v = ir.Strip(v)
+	if e, ok := v.(*ssa.Extract); ok && e.Index == 0 {
+		v = e.Tuple
+	}
+	lk, _ := v.(*ssa.Lookup)
+	return lk
+}
